@@ -1,6 +1,6 @@
 (** C17 — control-flow metadata agrees with the instruction's architectural behaviour. *)
 From Coq Require Import ZArith List Bool String.
-From Mx Require Import X86Types X86Dis X86Proofs.
+From Mx Require Import X86Types X86Dis X86Proofs X86Facts.
 From MxGen Require Import X86Tables.
 Import ListNotations.
 Open Scope Z_scope.
@@ -10,7 +10,7 @@ Open Scope Z_scope.
     block-ending without fall-through; every other mnemonic (data, arithmetic, string, x87/SSE, int ...) is not
     block-ending; syscall/sysenter/sysexit/sysret are excluded *)
 Theorem C17_flow_class_agree : forallb flow_ok (t_mnemos x86_tables) = true.
-Proof. vm_compute. reflexivity. Qed.
+Proof. exact flow_class_agree. Qed.
 Print Assumptions C17_flow_class_agree.
 
 Theorem C17_flow_class_agree_forall : forall m, In m (t_mnemos x86_tables) -> flow_ok m = true.
